@@ -19,6 +19,9 @@ CLAIMS = {
  "C04": dict(
     text="Proof (Verus) that emit_line_unchanged flushes and then writes exactly format_raw_line(raw_line) followed by a newline, that format_raw_line is the identity unless hyperlinks are on and stdout is a tty, and of the 'decline' facet of the handlers under contract (predicate false => Ok(false), nothing written, state unchanged).",
     note=_COMMON_NOTE + " Conditional on 'no handler's predicate holds' (regex semantics are not modelled)."),
+ "C07": dict(
+    text="Proof (Verus) of the side-by-side geometry kernels: SideBySideData::new_sbs gives two panels of half the configured width whose sum never exceeds it; get_right_fill_style_for_panel always pads the left panel with spaces (never the fill-to-end-of-line ANSI sequence); pad_panel_line_to_width leaves the left panel exactly panel_width columns wide (truncating when wider, padding when narrower, no underflow), so the right panel starts at the same column on every row.",
+    note=_COMMON_NOTE + " Assumed: measure_text_width is a width function for which appending n painted spaces adds n columns, truncate_str cuts a wider string to exactly the requested width, empty rows are never wrapped continuation rows. Lossless wrapping (wrap_line, wrap_minusplus_block), row pairing and has_long_lines are out of the verifier's reach (iterator pipelines, nested fns) and are NOT decided."),
  "C08": dict(
     text="Proof (Verus) of the relation that decides whether an input line carries 'something other than git's plain colour': ansi_term_style_equality is exactly 'all eight attributes equal and both colours equal up to the named/0-7 identification' (reflexive, symmetric), the equality key agrees with it, Style::is_applied_to and line_has_style_other_than compose it as stated.",
     note=_COMMON_NOTE + " The two-run relation (coloured vs plain input give the same output) is not decided; escape-sequence stripping and the SGR parser are assumed (first_style_spec uninterpreted)."),
@@ -48,12 +51,15 @@ CLAIMS = {
  "C11": dict(
     text="Proof (Verus, unbounded) of the per-line streaming contract of the real handle_hunk_line: after every handled hunk line the output buffer has been emitted, at most line_buffer_size+1 removed/added lines are held back, an unchanged line leaves nothing buffered, and the ghost sequence of rendered lines is only ever extended (never revised).",
     note=_COMMON_NOTE + " OS/pager buffering in main.rs is outside the claim."),
+ "C12": dict(
+    text="Proof (Verus) that the canonical style string printed by `impl Display for Style` (what --show-config reports) consists of exactly: one word for EVERY attribute that is set (omit, blink, bold, dim, hidden, italic, reverse, strike, ul - with the spelling the parser reads back as a text attribute), then the foreground word (syntax / colour / normal), then the background colour if any; `raw` alone for raw styles.",
+    note=_COMMON_NOTE + " Only the printing half is under contract: parse_ansi_term_style (word iterator with closures), parse_color/#rrggbb, to_ansi_color and the actual SGR bytes (ansi_term) are not; the round-trip lemma parse(canon(s)) ~ s is therefore not proved."),
  "C14": dict(
     text="Proof (Verus) of the header-emission contracts: each file-header handler writes at most one header per call (bounded growth of the ghost history), write_generic's blank-line/omit/color-only cases, the diff-line handler resets the handled/current pair, claims exactly the lines with the literal prefix 'diff '.",
     note=_COMMON_NOTE + " Exact header counts over whole histories and box drawing are not decided."),
 }
 _NOT_YET = "check not built yet in this session (planned, see DESIGN.md section 4)"
-NA = {p: _NOT_YET for p in ["C06","C07","C12","C13"]}
+NA = {p: _NOT_YET for p in ["C06","C13"]}
 NA["C18"] = "quantifies over OS-level fault sequences, child exit statuses and pager selection (run_app / OutputType::try_pager: Command::spawn, wait, process::exit); neither installed deductive verifier has a model of these and no function with a meaningful contract can be separated without refactoring unguarded source (DESIGN.md section 5)"
 for _p in CLAIMS:
     CLAIMS[_p].setdefault("technique", _V)
